@@ -24,6 +24,7 @@ type recSvc struct {
 	mu    sync.Mutex
 	msgs  map[string][]edge.Message
 	snaps map[string][]string
+	made  []string // node names of the sinks, as created
 }
 
 func newRecSvc() *recSvc {
@@ -53,6 +54,9 @@ func (s *recSvc) Create(name, taskID, nodeID string, d udf.Diagnostic, abortCall
 	if !ok {
 		return nil, fmt.Errorf("unknown udf %s", name)
 	}
+	s.mu.Lock()
+	s.made = append(s.made, nodeID)
+	s.mu.Unlock()
 	return &sinkUDF{svc: s, key: nodeID, info: info, in: make(chan edge.Message), out: make(chan edge.Message), done: make(chan struct{}), abort: abortCallback}, nil
 }
 
@@ -215,7 +219,15 @@ func assemble(raw []string) []string {
 	return out
 }
 
-// sinkKeys returns the sink node names in creation order (sink2, bsink4, sink10, …).
+// sinkKeys returns the sink node names ordered by pipeline node id (sink2, bsink4, sink10, …) = declaration order.
+func (s *recSvc) sinkKeys() []string {
+	s.mu.Lock()
+	defer s.mu.Unlock()
+	ks := append([]string(nil), s.made...)
+	sortByNumSuffix(ks)
+	return ks
+}
+
 func (s *recSvc) finals(key string) []string {
 	s.mu.Lock()
 	defer s.mu.Unlock()
